@@ -1,5 +1,5 @@
 import os, time
-import c01, vf, w32
+import c01, vf, w32, gen_rs2v
 
 
 class Property(c01.Property):
@@ -11,6 +11,11 @@ class Property(c01.Property):
         "on the 64-bit host the inline limit is 2^46-1, so the sentinel branch (inline == limit -> ask the length query) of Value::as_string/array_len/obj_len is exercised by the model at W=32 (theorems C11_api_len, C11_inline) and against the REAL crates built for a 32-bit target under Miri/i686 on every run (lib/w32.py: 15 documents with sizes 2^14-2 .. 2^14+1 through every access path, compared with an independent eager decode and, where the list-based model is fast enough, with the model at W=32)",
         "api::Value values are built from raw NaN-boxed answers by a same-size transmute in the harness",
     ]
+
+    def regen(self):
+        info = super().regen()
+        info["T8"] = list(info.get("T8", [])) + [gen_rs2v.generate(vf.REPO, "ApiLenGen")]
+        return info
 
     def correspond(self, tier, seed):
         r = super().correspond(tier, seed)
